@@ -15,7 +15,7 @@ Definition shipped_ctx : ctx ty unit unit unit unit :=
   mkCtx ty_eqb (fun _ _ => true) shipped_relations (fun _ _ st => Ok (true, st))
         (fun t => ty_eqb t tGeneric) tGeneric (fun l => l) (fun _ => tt) (fun _ => 0) (fun d _ => d)
         (fun _ => []) (fun _ _ => Raise KeyError) (fun _ => tt) (fun l => l)
-        (fun t => Z.of_nat (ty_name t)) (fun _ _ => 0).
+        (fun _ _ => Raise KeyError) (fun t => Z.of_nat (ty_name t)) (fun _ _ => 0).
 
 Definition exn_code (e : exn) : Z :=
   match e with
@@ -79,7 +79,7 @@ Definition export_ctx : ctx ty unit unit unit unit :=
   mkCtx ty_eqb (fun _ _ => true) shipped_relations (fun _ _ st => Ok (true, st))
         (fun t => ty_eqb t tGeneric) tGeneric (fun l => l) (fun _ => tt) (fun _ => 0) (fun d _ => d)
         (fun _ => []) (fun _ _ => Raise KeyError) (fun _ => tt) (fun l => l)
-        (fun t => Z.of_nat (ty_name t)) enc_render.
+        (fun _ _ => Raise KeyError) (fun t => Z.of_nat (ty_name t)) enc_render.
 
 Definition tys_of (order : list Z) : list ty :=
   flat_map (fun i => match ty_of_index i with Some t => [t] | None => [] end) order.
